@@ -718,7 +718,22 @@ func (s *Session) SetUnmarshaller(unmarshaller Unmarshaller) {
 }
 
 func (s *Session) Stop() (err error) {
-	defer func() {
+	delayTimer := time.AfterFunc(s.LogonSettings.CloseTimeout, func() {
+		s.cancel()
+	})
+
+	// The handler is registered before the Logout is sent, so the peer's answer cannot be missed.
+	s.OnChangeState(utils.EventLogout, func() bool {
+		delayTimer.Stop()
+		s.cancel()
+
+		return true
+	})
+
+	// The event handlers are released once the session is over, not while
+	// the answer to the Logout is still awaited.
+	go func() {
+		<-s.ctx.Done()
 		s.eventHandler.Clean()
 	}()
 
@@ -726,17 +741,6 @@ func (s *Session) Stop() (err error) {
 	if err != nil {
 		return fmt.Errorf("sendWithErrorCheck logout request: %w", err)
 	}
-
-	delayTimer := time.AfterFunc(s.LogonSettings.CloseTimeout, func() {
-		s.cancel()
-	})
-
-	s.OnChangeState(utils.EventLogout, func() bool {
-		delayTimer.Stop()
-		s.cancel()
-
-		return true
-	})
 
 	return nil
 }
